@@ -174,6 +174,29 @@ func VC02_Response() {
 	}
 	rt.Observe("dest", sent[0].dest)
 	rt.Observe("out", sent[0].bytes)
+	if rt.Param("R") == 1 {
+		// a further response of the same transaction carries byte-identical Via lines (the 200 after the 180, a
+		// retransmission): it is relayed exactly like the first one, whatever decoding the first one left behind
+		text2 := "SIP/2.0 200 OK\r\n" + head +
+			"From: <sip:alice@example.com>;tag=a\r\nTo: <sip:bob@example.net>" + toTag + "\r\nCall-ID: c1\r\nCSeq: 1 " + method + "\r\nContent-Length: 0\r\n\r\n"
+		rt.Assert(w.deliver(text2, "10.0.1.1", 5060, true), "second response decodes")
+		sent2 := w.sentAll()
+		rt.Assert(len(sent2) == 2, "second response with the same Via lines: relayed exactly once as well")
+		if len(sent2) == 2 {
+			k := 1
+			if sent2[0].bytes != sent[0].bytes || sent2[0].dest != sent[0].dest {
+				k = 0 // sentAll lists by channel, not by time
+			}
+			rt.Assert(sent2[k].dest == want, "second response: same next hop")
+			got2 := refRead(sent2[k].bytes).listOf("via")
+			rt.Assert(len(got2) == n-1, "second response: exactly the topmost Via entry is discarded")
+			if len(got2) == n-1 {
+				for i := 1; i < n; i++ {
+					rt.Assert(got2[i-1] == vias[i].text, "second response: remaining Via entries intact and in order")
+				}
+			}
+		}
+	}
 	rt.Reach("end")
 }
 
